@@ -169,6 +169,7 @@ struct Ctx {
   bool removed = false;
   std::string cur_piece_msg[4];   // the PIECE message a peer is in the middle of (pp then pr)
   uint32_t cur_piece_idx[4] = {0, 0, 0, 0};
+  uint32_t cur_piece_off[4] = {0, 0, 0, 0};
   std::string completed;          // completed bitfield as last seen (public API)
 };
 
@@ -324,7 +325,7 @@ static void parse_wire(Ctx& c) {
         break;
       case WirePeer::PIECE: {
         uint32_t i = m.u32(0), b = m.u32(4), l = (uint32_t)m.body.size() - 8;
-        if (!p.partial_reported) c.ev.push_back("L" + std::to_string(p.id) + ":ps:" + std::to_string(i));
+        if (!p.partial_reported) c.ev.push_back("L" + std::to_string(p.id) + ":ps:" + std::to_string(i) + ":" + std::to_string(b));
         p.partial_reported = false;
         bool ok = i < c.T->piece_count() && (uint64_t)b + l <= c.T->piece_size(i) && m.body.compare(8, l, c.T->range(i, b, l)) == 0;
         e += "pc:" + std::to_string(i) + ":" + std::to_string(b) + (ok ? "" : ":BAD");
@@ -340,7 +341,8 @@ static void parse_wire(Ctx& c) {
     if (!p.partial_reported && p.w.rx.size() >= 13 && (unsigned char)p.w.rx[4] == WirePeer::PIECE) {
       const unsigned char* q = (const unsigned char*)p.w.rx.data() + 5;
       uint32_t i = (uint32_t(q[0]) << 24) | (uint32_t(q[1]) << 16) | (uint32_t(q[2]) << 8) | q[3];
-      c.ev.push_back("L" + std::to_string(p.id) + ":ps:" + std::to_string(i));
+      uint32_t b = (uint32_t(q[4]) << 24) | (uint32_t(q[5]) << 16) | (uint32_t(q[6]) << 8) | q[7];
+      c.ev.push_back("L" + std::to_string(p.id) + ":ps:" + std::to_string(i) + ":" + std::to_string(b));
       p.partial_reported = true;
     }
   }
@@ -385,7 +387,9 @@ static void wait_hash(Ctx& c) {
 }
 
 // ---- scenarios ---------------------------------------------------------------------------------------------
-static const uint32_t PLEN = 2048, NP = 8;
+static const uint32_t NP = 8;
+static uint32_t PLEN = 2048;   // piece length of the current scenario
+static uint32_t BLEN = 2048;   // block length = min(PLEN, 16384)
 
 struct Scenario {
   std::string have;       // completed pieces at start
@@ -393,15 +397,18 @@ struct Scenario {
   int npeers = 1;
   std::vector<bool> outgoing, ext;
   std::vector<Step> steps;
+  int maxconn = 0;
 };
 
 static Step B(int p, const std::string& k, uint32_t len) { return Step{'B', p, k, len}; }
 static Step A(int p, const std::string& k) { return Step{'A', p, k, 0}; }
-static const uint32_t PIECE_MSG = 13 + PLEN;
+#define PIECE_MSG (13 + BLEN)
 
 static bool make_scenario(const std::string& name, Scenario& s) {
   s.outgoing.assign(4, false);
   s.ext.assign(4, false);
+  PLEN = name == "mblk" ? 32768 : 2048;
+  BLEN = std::min<uint32_t>(PLEN, 16384);
   if (name == "hin") {
     s.have = std::string(NP, '1');
     s.steps = {A(0, "conn"), B(0, "hs", 68), B(0, "bf0", 6), B(0, "in", 5)};
@@ -435,6 +442,24 @@ static bool make_scenario(const std::string& name, Scenario& s) {
     s.steps = {A(0, "conn"), B(0, "hs", 68), B(0, "bf1", 6), B(0, "un", 5),
                A(1, "conn"), B(1, "hs", 68), B(1, "bf1", 6), B(1, "un", 5), B(0, "pp", 113),
                A(2, "conn"), B(2, "hs", 68), B(1, "pp", 113), B(2, "bf1", 6)};
+  } else if (name == "mblk") {
+    // multi-block pieces, pipelined requests: cuts on block boundaries inside a piece
+    s.have = std::string(NP, '0');
+    s.steps = {A(0, "conn"), B(0, "hs", 68), B(0, "bf1", 6), B(0, "un", 5), B(0, "pc", PIECE_MSG), B(0, "pc", PIECE_MSG), B(0, "pc", PIECE_MSG)};
+  } else if (name == "hs3") {
+    // several handshakes of the torrent in the table at the same time (incoming ones know their torrent from byte 48)
+    s.have = std::string(NP, '1');
+    s.npeers = 4;
+    s.outgoing[3] = true;
+    s.steps = {A(0, "conn"), B(0, "hsa", 60), A(1, "conn"), B(1, "hsa", 60), A(2, "conn"), B(2, "hsa", 60), A(3, "out"),
+               B(0, "hsb", 8), B(1, "hsb", 8)};
+  } else if (name == "full") {
+    // connection list full: two handshakes race for the last slot, then a further peer connects
+    s.have = std::string(NP, '1');
+    s.npeers = 3;
+    s.maxconn = 1;
+    s.steps = {A(0, "max"), A(0, "conn"), B(0, "hsa", 60), A(1, "conn"), B(1, "hsa", 60), B(0, "hsb", 8), B(0, "bf0", 6),
+               B(1, "hsb", 8), B(1, "bf0", 6), A(2, "conn"), B(2, "hs", 68), B(0, "in", 5)};
   } else {
     return false;
   }
@@ -458,6 +483,10 @@ static std::string step_bytes(Ctx& c, const Step& st) {
   SPeer& p = *c.peers[st.peer];
   Torrent* T = c.T;
   const std::string& k = st.kind;
+  if (k == "hsa" || k == "hsb") {
+    std::string h = WirePeer::handshake(T->info_hash, peer_id(g_case_no, st.peer), std::string(8, '\0'));
+    return k == "hsa" ? h.substr(0, 60) : h.substr(60);
+  }
   if (k == "hs") return WirePeer::handshake(T->info_hash, peer_id(g_case_no, st.peer), p.ext ? WirePeer::reserved_ext() : std::string(8, '\0'));
   if (k == "bf0") return WirePeer::bitfield(std::string(NP, '0'));
   if (k == "bf1") return WirePeer::bitfield(std::string(NP, '1'));
@@ -467,15 +496,16 @@ static std::string step_bytes(Ctx& c, const Step& st) {
   if (k == "un") return WirePeer::unchoke();
   if (k == "ch") return WirePeer::choke();
   if (k == "xh") return ext_handshake_msg();
-  if (!k.compare(0, 3, "rq:")) return WirePeer::request(atoi(k.c_str() + 3), 0, PLEN);
-  if (!k.compare(0, 3, "ca:")) return WirePeer::cancel(atoi(k.c_str() + 3), 0, PLEN);
+  if (!k.compare(0, 3, "rq:")) return WirePeer::request(atoi(k.c_str() + 3), 0, BLEN);
+  if (!k.compare(0, 3, "ca:")) return WirePeer::cancel(atoi(k.c_str() + 3), 0, BLEN);
   if (k == "pc" || k == "pp" || k == "bad") {
-    Req r{0, 0, PLEN};
+    Req r{0, 0, BLEN};
     if (!p.pending.empty()) { r = p.pending.front(); p.pending.pop_front(); }
-    std::string d = T->range(r.idx, r.off, PLEN);
+    std::string d = T->range(r.idx, r.off, BLEN);
     if (k == "bad") d[10] = char(d[10] ^ 0x33);
     std::string m = WirePeer::piece(r.idx, r.off, d);
     c.cur_piece_idx[st.peer] = r.idx;
+    c.cur_piece_off[st.peer] = r.off;
     if (k == "pp") { c.cur_piece_msg[st.peer] = m; return m.substr(0, 113); }
     return m;
   }
@@ -509,6 +539,9 @@ static bool do_action(Ctx& c, const Step& st) {
     Session::set_send_budget(p.port, atoll(st.kind.c_str() + 7));
     c.ev.push_back("A" + std::to_string(p.id) + ":" + st.kind);
     pump_all(c);
+  } else if (st.kind == "max") {
+    c.T->dl.connection_list()->set_max_size(1);
+    c.ev.push_back("A:max:1");
   } else if (st.kind == "ptick") {
     to_pex_tick(c);
     c.ev.push_back("A:ptick");
@@ -566,12 +599,12 @@ static std::string healthy(Ctx& c, bool leech) {
     if (!p.w.take_handshake(h)) return "nohandshake";
     p.w.send_bytes(WirePeer::interested());
     pump1();
-    p.w.send_bytes(WirePeer::request(3, 0, PLEN));
+    p.w.send_bytes(WirePeer::request(3, 0, BLEN));
     pump1();
     WireMsg m;
     res = "notserved";
     while (p.w.next_message(m))
-      if (m.id == WirePeer::PIECE && m.body.size() == 8 + PLEN && m.u32(0) == 3 && m.body.compare(8, PLEN, T->range(3, 0, PLEN)) == 0) res = "served";
+      if (m.id == WirePeer::PIECE && m.body.size() == 8 + BLEN && m.u32(0) == 3 && m.body.compare(8, BLEN, T->range(3, 0, BLEN)) == 0) res = "served";
   }
   p.w.close_all();
   pump1();
@@ -704,8 +737,11 @@ static std::string run_case(const std::string& line) {
       if (kind == "pc" || kind == "pp" || kind == "bad" || kind == "pr") {
         len = PIECE_MSG;
         if (kind == "pr") n += 113;
-        kind += "@" + std::to_string(c.cur_piece_idx[st.peer]);
+        kind += "@" + std::to_string(c.cur_piece_idx[st.peer]) + "." + std::to_string(c.cur_piece_off[st.peer]);
       }
+      if (kind == "hsa") kind = "hs";
+      if (kind == "hsb") { kind = "hs"; n += 60; len = 68; }
+      if (st.kind == "hsa") len = 68;
       c.ev.push_back("B" + std::to_string(p.id) + ":" + kind + ":" + std::to_string(n) + "/" + std::to_string(len));
     }
     consumed += allow;
